@@ -1,5 +1,7 @@
 """C33 -- SortedSet / OrderedMap / OrderedMapSerializedKey behave as their mathematical models."""
 import os
+import copy as _copy
+import pickle
 import struct
 
 from hypothesis import strategies as st
@@ -179,8 +181,12 @@ def _sortedset_strategy(dom):
     if dom in HASHABLE:
         ops.append(st.builds(lambda m, o: {"op": m, "other": o}, st.sampled_from(["ror", "rand", "rsub", "rxor", "req"]),
                              s_operand(dom, ["set"])))
+    ops.append(st.builds(lambda h: {"op": "spawn", "how": h},
+                         st.sampled_from(["ctor", "ctor", "copy", "copy.copy", "deepcopy", "pickle", "union0", "ctor-of-list"])))
+    # which of the live containers the operation is applied to (index modulo their number; 0 = the first)
+    targeted = st.builds(lambda o, t: dict(o, t=t), st.one_of(ops), st.sampled_from([0, 0, 1, 2, 3, 4, 5]))
     return st.builds(lambda init, ops_: {"dom": dom, "init": init, "ops": ops_}, s_elems(dom),
-                     st.lists(st.one_of(ops), max_size=14))
+                     st.lists(targeted, max_size=14))
 
 
 def s_sortedset_case():
@@ -281,6 +287,28 @@ def _check_state(ctx, dom, S, M, after, extra_feat=None):
     return True
 
 
+_INPLACE = ("add", "remove", "pop", "clear", "update", "delitem", "ior", "iand", "isub", "ixor")
+
+
+def _check_untouched(ctx, dom, C, Mc, how, after):
+    """a container that was not the target of the step still matches its own model"""
+    try:
+        got = [img_of_obj(dom, x) for x in C]
+        n = len(C)
+        want = Mc.ordered()
+        ok = (got == want) if want is not None else (len(got) == len(set(got)) and set(got) == Mc.keys())
+        ok = ok and n == len(Mc.rep)
+        shown = repr(sorted(map(repr, got)))
+    except Exception as e:  # noqa
+        ok, shown = False, "%s: %s" % (type(e).__name__, e)
+    if not ok:
+        ctx.fail(["C33.sortedset.alias", how],
+                 "dom=%s: after %s on another set, a set (%s) shows %s but its own model is %r: storage shared between "
+                 "containers" % (dom, after, how, shown, sorted(map(repr, Mc.keys()))))
+        return False
+    return True
+
+
 def interpret_sortedset(case, ctx):
     _interpret_sortedset(case, ctx)
     if case["dom"] in NESTED and ctx._failures:
@@ -303,12 +331,45 @@ def _interpret_sortedset(case, ctx):
     if not _check_state(ctx, dom, S, M, "init"):
         return
     seen_ops = set()
+    # every container any operation hands out stays alive with a model of its own; after each step ALL of
+    # them are compared with their models, so that two containers sharing storage (a constructor, copy or
+    # operator that does not really build a new set) show up as soon as one of them is changed in place
+    live = [[S, M, "init"]]
+    spawned = aliasable = 0
     for step, op in enumerate(case["ops"]):
         name = op["op"]
         seen_ops.add(name)
         key = ["C33.sortedset." + name, D]
         KE = (KeyError,)
-        if name == "add":
+        t = op.get("t", 0) % len(live)
+        S, M = live[t][0], live[t][1]
+        born = []
+        if name == "spawn":
+            how = op["how"]
+            with ctx.driver(key + [how]):
+                if how == "ctor":
+                    C = SortedSet(S)
+                elif how == "copy":
+                    C = S.copy()
+                elif how == "copy.copy":
+                    C = _copy.copy(S)
+                elif how == "deepcopy":
+                    C = _copy.deepcopy(S)
+                elif how == "pickle":
+                    C = pickle.loads(pickle.dumps(S, 2))
+                elif how == "union0":
+                    C = S.union()
+                elif how == "ctor-of-list":
+                    C = SortedSet(list(S))
+                else:
+                    raise AssertionError(how)
+                if ctx.check(isinstance(C, SortedSet) and C is not S, key + [how, "type"], "%s gave %r" % (how, type(C))):
+                    if _check_state(ctx, dom, C, M, "spawn:" + how):
+                        born.append([C, M.copy(), "made-by=" + how])
+                        spawned += 1
+            if ctx._failures:
+                return
+        elif name == "add":
             with ctx.driver(key):
                 S.add(mk(dom, op["x"]))
             M.rep.setdefault(img(dom, op["x"]), op["x"])
@@ -422,7 +483,11 @@ def _interpret_sortedset(case, ctx):
             with ctx.driver(key + [kinds]):
                 res = getattr(S, name)(*objs)
                 if ctx.check(isinstance(res, SortedSet), key + ["type"], "%s() returned %r" % (name, type(res))):
-                    _check_state(ctx, dom, res, R, name, kinds)
+                    if _check_state(ctx, dom, res, R, name, kinds):
+                        born.append([res, R, "made-by=" + name])
+                for o, obj, om in zip(op["others"], objs, mods):
+                    if o["kind"] == "sortedset":
+                        born.append([obj, om, "operand-of=" + name])
         elif name in ("symmetric_difference", "or", "and", "sub", "xor", "ror", "rand", "rsub", "rxor",
                       "ior", "iand", "isub", "ixor"):
             o = op["other"]
@@ -480,7 +545,10 @@ def _interpret_sortedset(case, ctx):
                     M.rep = R.rep
                 if res is not None and ctx.check(isinstance(res, SortedSet), key + ["type", kinds],
                                                  "%s returned %r" % (name, type(res))):
-                    _check_state(ctx, dom, res, R, name, kinds)
+                    if _check_state(ctx, dom, res, R, name, kinds):
+                        born.append([res, R, "made-by=" + name])
+                if o["kind"] == "sortedset":
+                    born.append([obj, om, "operand-of=" + name])
         elif name in ("isdisjoint", "issubset", "issuperset", "le", "lt", "ge", "gt", "eq", "ne", "req"):
             o = op["other"]
             obj, om = _operand_obj(dom, o), _operand_model(dom, o)
@@ -517,10 +585,28 @@ def _interpret_sortedset(case, ctx):
             return
         if not _check_state(ctx, dom, S, M, name):
             return
-    if not _check_state(ctx, dom, S, M, "final"):
-        return
+        # ... and nobody else changed
+        everyone = live + born
+        for i, (C, Mc, how) in enumerate(everyone):
+            if C is S:
+                continue
+            # name the finding after the younger of the two containers: the one whose making shared the storage
+            if not _check_untouched(ctx, dom, C, Mc, how if i > t else everyone[t][2], name):
+                return
+        if name in _INPLACE and len(live) > 1:
+            aliasable += 1
+        live.extend(born)
+        while len(live) > 6:
+            live.pop(1)
+    for C, Mc, how in live:
+        if not _check_state(ctx, dom, C, Mc, "final"):
+            return
     n = len(case["ops"])
     ctx.label("sortedset", "set:dom=%s" % dom)
+    if spawned:
+        ctx.label("set:spawned-container")
+    if aliasable:
+        ctx.label("set:in-place-op-with-other-containers-alive")
     if seen_ops & set(_REMOVALS):
         ctx.label("set:removal")
     if seen_ops & set(_BINARY):
@@ -651,8 +737,10 @@ def _map_strategy(variant, kt):
                   st.sampled_from(["same", "omap", "dict"] if kt in K_HASHABLE else ["same", "omap"]),
                   pairs.map(lambda p: _dedup_pairs(kt, p))),
     ]
+    ops.append(st.builds(lambda h: {"op": "spawn", "how": h}, st.sampled_from(["ctor", "ctor-of-items", "copy.copy", "deepcopy"])))
+    targeted = st.builds(lambda o, t: dict(o, t=t), st.one_of(ops), st.sampled_from([0, 0, 1, 2, 3, 4]))
     return st.builds(lambda proto, i, o: {"variant": variant, "ktype": kt, "proto": proto, "init": i, "ops": o},
-                     st.sampled_from([3, 4, 5]), init, st.lists(st.one_of(ops), max_size=12))
+                     st.sampled_from([3, 4, 5]), init, st.lists(targeted, max_size=12))
 
 
 def s_map_case():
@@ -727,11 +815,37 @@ def interpret_map(case, ctx):
         return
     seen = set()
     overwrite = False
+    live = [[m, M, "init"]]
+    spawned = aliasable = 0
     for op in case["ops"]:
         name = op["op"]
         seen.add(name)
         key = ["C33.map." + name] + feats
-        if name == "set":
+        t = op.get("t", 0) % len(live)
+        m, M = live[t][0], live[t][1]
+        born = []
+        if name == "spawn":
+            how = op["how"]
+            if how == "ctor" and variant != "pickle":
+                how = "copy.copy"        # OrderedMapSerializedKey has no constructor taking a mapping
+            with ctx.driver(key + [how]):
+                if how == "ctor":
+                    c = OrderedMap(m)
+                elif how == "ctor-of-items":
+                    c = OrderedMap(list(m.items())) if variant == "pickle" else _copy.deepcopy(m)
+                elif how == "copy.copy":
+                    c = _copy.copy(m)
+                elif how == "deepcopy":
+                    c = _copy.deepcopy(m)
+                else:
+                    raise AssertionError(how)
+                if ctx.check(isinstance(c, want_cls) and c is not m, key + [how, "type"], "%s gave %r" % (how, type(c))):
+                    Mc = _MapModel(kt)
+                    Mc.items = [list(it) for it in M.items]
+                    if _check_map_state(ctx, feats, c, Mc, "spawn:" + how):
+                        born.append([c, Mc, "made-by=" + how])
+                        spawned += 1
+        elif name == "set":
             if M.find(op["k"]) >= 0:
                 overwrite = True
             with ctx.driver(key):
@@ -821,7 +935,37 @@ def interpret_map(case, ctx):
             return
         if not _check_map_state(ctx, feats, m, M, name):
             return
+        # every other live map still matches its own model (no storage shared between containers)
+        everyone = live + born
+        for i, (c, Mc, how) in enumerate(everyone):
+            if c is m:
+                continue
+            # name the finding after the younger of the two containers: the one whose making shared the storage
+            how = how if i > t else everyone[t][2]
+            # one root cause per way of making the container: exceptions (a half-shared index) and plain
+            # differences are the same finding
+            try:
+                items = [[unmk_key(kt, k), v] for k, v in c.items()]
+                n = len(c)
+                looked = [c[mk_key(kt, it[1])] for it in Mc.items]
+                same = items == Mc.pairs() and n == len(Mc.items) and looked == [it[2] for it in Mc.items]
+                seen_state = repr(items)
+            except Exception as e:  # noqa
+                same, seen_state = False, "%s: %s" % (type(e).__name__, e)
+            if not ctx.check(same, ["C33.map.alias", how],
+                             "%s: after %s on another map, a map (%s) shows %s but its own model is %r: storage shared between "
+                             "containers" % ("/".join(feats), name, how, seen_state, Mc.pairs())):
+                return
+        if name in ("set", "del", "popitem") and len(live) > 1:
+            aliasable += 1
+        live.extend(born)
+        while len(live) > 5:
+            live.pop(1)
     ctx.label("map", "map:%s" % variant, "map:key=%s" % kt)
+    if spawned:
+        ctx.label("map:spawned-container")
+    if aliasable:
+        ctx.label("map:mutation-with-other-containers-alive")
     if overwrite:
         ctx.label("map:overwrite")
     if seen & set(["del", "popitem"]):
